@@ -428,10 +428,22 @@ class Inliner:
 
     def _inline_everywhere(self, h: Helper) -> Tuple[int, int]:
         done = left = 0
+        home = next((t for t in self.trees.values() if any(n is h.node for n in ast.walk(t))), None)
+        hf = NameFacts(h.node)
+        h_locals = set(hf.stores) | hf.special | set(h.params)
+        free = {n.id for n in _own_nodes(h.node) if isinstance(n, ast.Name) and isinstance(n.ctx, ast.Load)} - h_locals
         for tree in self.trees.values():
             for fn in [n for n in ast.walk(tree) if isinstance(n, FuncNode) and n is not h.node]:
                 if h.local and h.container is not fn.body:
                     continue  # a local function is only visible in the function that defines it
+                if not any(self._is_call_of(n, h) for n in _own_nodes(fn)):
+                    continue
+                # the helper's global names must mean the same at the call site: same module, and no local of
+                # the caller shadows one of them
+                cf = NameFacts(fn)
+                if tree is not home or (free & (set(cf.stores) | cf.special)) and not h.local:
+                    left += sum(1 for n in _own_nodes(fn) if self._is_call_of(n, h))
+                    continue
                 if not any(self._is_call_of(n, h) for n in _own_nodes(fn)):
                     continue
                 for _ in range(40):
